@@ -619,7 +619,8 @@ func (c *Client) readResponse() error {
 		return fmt.Errorf("in %v: %v", token, err)
 	}
 
-	if !c.dec.ExpectCRLF() {
+	// readResponseTagged reads the CRLF itself, before completing the command
+	if tag == "" && !c.dec.ExpectCRLF() {
 		return fmt.Errorf("in response: %v", c.dec.Err())
 	}
 
@@ -739,6 +740,12 @@ func (c *Client) readResponseTagged(tag, typ string) (startTLS *startTLSCommand,
 		}
 	default:
 		return nil, fmt.Errorf("in resp-cond-state: expected OK, NO or BAD status condition, but got %v", typ)
+	}
+
+	// Only complete the command once its whole response line has been
+	// received: a truncated response must not be reported as a success
+	if !c.dec.ExpectCRLF() {
+		return nil, fmt.Errorf("in response: %v", c.dec.Err())
 	}
 
 	c.completeCommand(cmd, cmdErr)
